@@ -186,18 +186,31 @@ def _worker_init():
     signal.signal(signal.SIGALRM, _alarm)
 
 
+_HANGS = None          # shared counter of confirmed hangs (created by pmap before forking)
+HANG_NO_RETRY_AFTER = 8
+HANG_SKIP_AFTER = 40
+
+
 def _run_task(arg):
     idx, item = arg
+    if _HANGS is not None and _HANGS.value >= HANG_SKIP_AFTER:
+        # the run has already failed many times over; do not spend the budget of every remaining state as well
+        return idx, {'outcome': 'skipped-after-hangs', 'viol': [], 'skipped': True}
     signal.signal(signal.SIGALRM, _alarm)
     signal.setitimer(signal.ITIMER_REAL, _TASK_BUDGET)
     try:
         try:
             out = _TASK_FN(item)
         except Hang:
+            if _HANGS is not None and _HANGS.value >= HANG_NO_RETRY_AFTER:
+                raise
             # a loaded machine must not look like non-termination: one retry with three times the budget
             signal.setitimer(signal.ITIMER_REAL, _TASK_BUDGET * 3)
             out = _TASK_FN(item)
     except Hang:
+        if _HANGS is not None:
+            with _HANGS.get_lock():
+                _HANGS.value += 1
         out = {'outcome': 'hang', 'viol': [viol('hang:task', 'state exceeded its time budget of %ss (and of %ss on retry)' % (_TASK_BUDGET, 3 * _TASK_BUDGET),
                                                  {'item': repr(item)[:2000]})]}
     except InternalError:
@@ -226,9 +239,11 @@ def pmap(fn, items, budget=60.0, chunksize=None, jobs=None):
 
     Yields (index, result-dict).  `fn` must return a dict; see Run.absorb.
     """
-    global _TASK_FN, _TASK_BUDGET
+    global _TASK_FN, _TASK_BUDGET, _HANGS
     _TASK_FN = fn
     _TASK_BUDGET = budget
+    if _HANGS is None:
+        _HANGS = multiprocessing.Value('i', 0)
     items = list(items)
     jobs = jobs or nproc()
     if jobs <= 1 or len(items) <= 1:
@@ -309,6 +324,12 @@ class Run:
         if 'internal' in out:
             if self.internal is None:
                 self.internal = out['internal']
+            return
+        if out.get('skipped'):
+            msg = 'states skipped after %d confirmed hangs (the run fails anyway; not exhaustive)' % HANG_SKIP_AFTER
+            if msg not in self.caps_hit:
+                self.caps_hit.append(msg)
+            self.outcomes['skipped-after-hangs'] += 1
             return
         self.states += 1
         self.validated += out.get('n', 1)
